@@ -226,13 +226,32 @@ func TestPoisonStandAlone(t *testing.T) {
 			eText = e.Error() // captured now: a multierror value is extended in place when the poison publish fails
 		}
 		pub := lib.NewScriptPub("")
+		warmingUp := false
 		pub.OnPublish = func(*lib.PubCall) error {
-			if c.PubFails {
+			if c.PubFails && !warmingUp {
 				return errPoisonPub
 			}
 			return nil
 		}
 		mw, sf := newMW(t, c, pub, e)
+		// the middleware value has a past: an earlier message with the SAME UUID (redelivery of a changed message, a
+		// producer that re-uses ids) was handled by it before, failing into the poison queue or succeeding
+		warm := 0
+		if c.Filter.Kind < 8 {
+			warm = rapid.SampledFrom([]int{0, 0, 1, 1, 2}).Draw(t, "earlierMessageWithSameUUID")
+		}
+		if warm > 0 {
+			warmingUp = true
+			wm := c.Msg.Msg()
+			wm.Payload = append([]byte("earlier:"), wm.Payload...)
+			var werr error
+			if warm == 1 {
+				werr = stderrors.New("earlier failure")
+			}
+			mw(func(*message.Message) ([]*message.Message, error) { return nil, werr })(wm)
+			warmingUp = false
+		}
+		before := len(pub.Calls())
 		var outs []*message.Message
 		for i := 0; i < c.Outputs; i++ {
 			outs = append(outs, message.NewMessage(fmt.Sprint("o", i), nil))
@@ -249,7 +268,7 @@ func TestPoisonStandAlone(t *testing.T) {
 		if calls != 1 {
 			t.Fatalf("violation: handler called %d times", calls)
 		}
-		pcs := pub.Calls()
+		pcs := pub.Calls()[before:]
 		poisoned := poisonedBy(c, sf, e, len(pcs))
 		switch {
 		case !poisoned:
@@ -284,7 +303,7 @@ func TestPoisonStandAlone(t *testing.T) {
 				t.Fatalf("violation: returned error %q no longer contains the handler's error %q", gotErr, eText)
 			}
 		}
-		lib.Case("sa|"+c.canon(), e != nil, "standalone", fmt.Sprintf("poisoned=%v", poisoned))
+		lib.Case(fmt.Sprintf("sa|%s|warm=%d", c.canon(), warm), e != nil, "standalone", fmt.Sprintf("poisoned=%v", poisoned), fmt.Sprintf("earlier-message-with-same-uuid=%d", warm))
 		if e != nil {
 			lib.Sample(map[string]any{"test": "PoisonStandAlone", "msg": c.Msg, "error": e.Error(), "filter": filterNames[c.Filter.Kind], "publish_fails": c.PubFails, "poisoned": poisoned})
 		}
